@@ -246,7 +246,9 @@ def update_connectivity(
     include_row = ~numpy.ma.getmask(row_indexes)
     raw_values = numpy.array([
         [
-            column_values[item] if item is not numpy.ma.masked else fill_value
+            fill_value
+            if item is numpy.ma.masked or column_values[item] is numpy.ma.masked
+            else column_values[item]
             for item in row
         ]
         for row in old_array[include_row]
